@@ -34,6 +34,16 @@ def main():
               "6k1/5p1p/6p1/8/8/8/1Q3PPP/3R2K1 b - - 0 1", "8/k7/3K4/8/8/8/7Q/8 b - - 0 1", "8/8/8/3k4/8/8/3K4/6R1 w - - 0 1"]:
         jobs.append({"hash": 1, "tag": "self-play-long", "searches": [{"pos": searches.fen2pos(f), "depth": 9 if q else 10}] +
                      [{"follow": True, "depth": 7} for k in range(12)]})
+    # long mates: elementary endings with the kings far apart, searched deep and played out by the engine on one table - as the
+    # mate comes nearer it is announced at distances 10, 9, 8, ... with lines of 16-20 plies (a line buffer or a copy that is
+    # bounded somewhere below the maximal depth shows only there)
+    for f in ["8/8/8/4k3/8/8/8/R3K3 w - - 0 1", "8/8/8/4k3/8/8/8/1Q2K3 w - - 0 1", "8/8/8/4k3/8/8/8/3QK3 b - - 0 1",
+              "8/8/4k3/8/8/8/8/4K2R b - - 0 1", "3k4/8/8/8/4K3/8/8/7r b - - 0 1", "8/8/8/8/3k4/8/8/q3K3 w - - 0 1"] + \
+             ([] if q else ["8/8/8/8/4k3/8/8/R2K4 w - - 0 1", "r3k3/8/8/8/3K4/8/8/8 b - - 0 1", "8/8/8/3k4/8/8/1Q6/K7 w - - 0 1",
+                            "k7/1q6/8/8/4K3/8/8/8 b - - 0 1"]):
+        dd = 16 if q else 18
+        jobs.append({"hash": 1, "tag": "self-play-deep", "searches": [{"pos": searches.fen2pos(f), "depth": dd}] +
+                     [{"follow": True, "depth": dd} for k in range(16 if q else 24)]})
     # best line ends in an immediately recognised draw (dead material after a capture, fifty-move rule next ply)
     draws = searches.draw_positions(chk, [chk.seed % 8, (chk.seed + 3) % 8] if q else list(range(8)), 24 if q else 3)
     rng.shuffle(draws)
@@ -60,6 +70,21 @@ def main():
                       replay={"kind": "search-event", "events": d["_file"], "line": d.get("at")})
     if stats["mates"] == 0:
         raise vlib.ToolError("no mate announcement observed: vacuous")
+    long_mates = 0
+    for ef in files:
+        with open(ef) as fh:
+            for line in fh:
+                if '"sk":"mate"' in line:
+                    try:
+                        e = json.loads(line)
+                    except ValueError:
+                        continue
+                    for i in ([e] if "sk" in e else e.get("infos", [])):
+                        if isinstance(i, dict) and i.get("sk") == "mate" and abs(i.get("sv", 0)) >= 9:
+                            long_mates += 1
+    if long_mates == 0:
+        raise vlib.ToolError("no mate announced at a distance of nine or more moves: the long-line clause is vacuous")
+    chk.cov["mate_announcements_at_distance_9_or_more"] = long_mates
     # node level: every step of every node of recorded searches replayed by Trace_Nodes.tla (lines are the move just
     # searched plus the line of the child that scored; mate / stalemate only without legal moves; reported lines are root lines)
     nv, ndrift, nstat = nodes.node_phase(chk, ("C08",), mates, draws, roots + walkp,
